@@ -35,7 +35,7 @@ GDelete(i) == /\ Delete(i) /\ Log([a |-> "delete", i |-> i])
 
 GInit == Init /\ hist = <<[a |-> "init", d |-> sd, c |-> cfg, st |-> <<>>]>>
 GNext == /\ (GenLen = 0 \/ Len(hist) < GenLen)
-         /\ \/ \E t \in CreateTimes : GCreate(t)
+         /\ \/ \E t \in HistCreateTimes : GCreate(t)
             \/ \E d \in SDs : GAlterSD(d)
             \/ \E t \in TruncTimes : GTruncate(t)
             \/ \E i \in 1..MaxGroups : GDelete(i)
